@@ -631,3 +631,50 @@ def make_knapsack(n=3):
             E.acc.violation(dict(prop="C20", kind="valid=>model (symbolic instance): a valid packing is excluded by the model", site="knapsack", cls=None, lost_packing=[E.ev(m, t) for t in take], **wit(m)))
 
     return body
+
+
+@register("model_latin_givens")
+def make_latin_givens(n=3, base=0):
+    """the real LatinSquareProblem constructor on SYMBOLIC givens (two cells symbolic, the others blank; colours base..base+n-1,
+    the blank marker is whatever value is not a colour): on every path of the constructor z3 decides that the network is exactly
+    'latin square that agrees with every given which is a colour'"""
+    from .core import SymInt
+
+    colors = list(range(base, base + n))
+    cells = [(0, 0), (1, 2 % n)]
+
+    def body(E):
+        from nucs.problems.latin_square_problem import LatinSquareProblem
+
+        g = {c: z3.Int(f"given{c[0]}{c[1]}") for c in cells}
+        for v in g.values():
+            E.solver.add(v >= base - 1, v <= base + n)
+        blank = base - 1
+        givens = [[SymInt(g[(i, j)]) if (i, j) in g else blank for j in range(n)] for i in range(n)]
+        pb = LatinSquareProblem(list(colors), givens)
+        E.acc.count("constructor-path")
+        import nucs.propagators.propagators as P
+
+        nd = len(pb.shr_domains_lst)
+        x = [z3.Int(f"c{i}") for i in range(nd)]
+        zz = lambda t: t.e if isinstance(t, SymInt) else z3.IntVal(int(t))  # noqa: E731
+        bounds = AND([z3.And(zz(lo) <= x[i], x[i] <= zz(hi)) for i, (lo, hi) in enumerate(pb.shr_domains_lst)])
+        v = [x[int(d)] + zz(o) for d, o in zip(pb.dom_indices_lst, pb.dom_offsets_lst)]
+        cons = AND([ZREL[alg_name(P, alg)]([v[int(i)] for i in pv], [zz(p) for p in params]) for pv, alg, params in pb.propagators])
+        phi = z3.And(bounds, cons)
+        cell = lambda i, j: v[i * n + j]  # noqa: E731
+        latin = AND([z3.And(base <= cell(i, j), cell(i, j) < base + n) for i in range(n) for j in range(n)] + [z3.Distinct(*[cell(i, j) for j in range(n)]) for i in range(n)] + [z3.Distinct(*[cell(i, j) for i in range(n)]) for j in range(n)])
+        agrees = AND([z3.Implies(z3.And(base <= g[c], g[c] < base + n), cell(*c) == g[c]) for c in cells])
+        valid = z3.And(latin, agrees)
+
+        def wit(m):
+            return dict(harness="models", model="latin_square_givens", size=n, colors=colors, givens=[[E.ev(m, g[(i, j)]) if (i, j) in g else blank for j in range(n)] for i in range(n)])
+
+        if E.query(z3.And(phi, z3.Not(valid))):
+            m = E.model()
+            E.acc.violation(dict(prop="C20", kind="model=>valid (symbolic givens): the model admits a square that is not latin or contradicts a given", site="latin_square", cls=None, square=[[E.ev(m, cell(i, j)) for j in range(n)] for i in range(n)], **wit(m)))
+        if E.query(z3.And(valid, z3.Not(phi))):
+            m = E.model()
+            E.acc.violation(dict(prop="C20", kind="valid=>model (symbolic givens): a valid completion is excluded by the model", site="latin_square", cls=None, square=[[E.ev(m, cell(i, j)) for j in range(n)] for i in range(n)], **wit(m)))
+
+    return body
